@@ -205,6 +205,7 @@ type runResult struct {
 	GotMax *classad.ClassAd // GetClassAdWithMaxSize with a generous budget
 	MaxErr error
 	SkipErr error // SkipClassAdRaw
+	SendErr error // (sequences) the serialiser itself refused
 }
 
 func runScenario(sc scenario) (*runResult, error) {
@@ -358,6 +359,14 @@ func containsFold(hay []byte, needle string) bool {
 
 // oracle runs the direct property checks on one executed scenario.
 func oracle(sc scenario, res *runResult) (key, msg string) {
+	if k, m := secrecy(sc, res); k != "" {
+		return k, m
+	}
+	return reassembly(sc, res)
+}
+
+// secrecy: the canary part of the oracle (what may not be on the wire)
+func secrecy(sc scenario, res *runResult) (key, msg string) {
 	clearWire := res.Wire // every byte that reached the connection
 	for i, a := range sc.Attrs {
 		_ = i
@@ -394,7 +403,7 @@ func oracle(sc scenario, res *runResult) (key, msg string) {
 					return "secret-in-clear-frame", fmt.Sprintf("value of private attribute %q written in a clear frame", a.Name)
 				}
 			}
-			if (len(sc.WL) == 0 || inList(a.Name, sc.WL)) && !bytes.Contains(clearWire, []byte(message.SecretMarker)) {
+			if res.SendErr == nil && (len(sc.WL) == 0 || inList(a.Name, sc.WL)) && !bytes.Contains(clearWire, []byte(message.SecretMarker)) {
 				return "no-marker", "private attribute sent on a keyed non-encrypting stream without the secret marker"
 			}
 		}
@@ -402,6 +411,11 @@ func oracle(sc scenario, res *runResult) (key, msg string) {
 			return "clear-on-encrypted", fmt.Sprintf("value of %q readable on an encrypting stream", a.Name)
 		}
 	}
+	return "", ""
+}
+
+// reassembly: what the peer must reconstruct
+func reassembly(sc scenario, res *runResult) (key, msg string) {
 	// peer reconstruction (GetClassAd expects the two type names: not applicable with PutClassAdNoTypes)
 	if sc.Opts&1 != 0 {
 		return "", ""
@@ -439,6 +453,188 @@ func oracle(sc scenario, res *runResult) (key, msg string) {
 		}
 	}
 	return "", ""
+}
+
+// ---------------------------------------------------------------------------
+// sequences: several ads through ONE Message with crypto-mode changes in between, and streams
+// rebuilt from an exported crypto state (send counter at / near its maximum)
+
+type seqStep struct {
+	Pre   string     `json:"pre"` // "", "setkey", "crypto-on", "crypto-off", "newmsg"
+	Opts  int        `json:"opts"`
+	Attrs []attrSpec `json:"attrs"`
+}
+type seqScenario struct {
+	Kind  string    `json:"kind"` // "seq"
+	Init  string    `json:"init"` // "plain", "keyed-enc", "keyed-clear", "blob"
+	Ectr  uint32    `json:"ectr"` // blob: send counter
+	Steps []seqStep `json:"steps"`
+}
+
+// cryptoBlob renders the documented layout of Stream.ExportCryptoState
+func cryptoBlob(ectr, dctr uint32) []byte {
+	var b bytes.Buffer
+	b.WriteString(stream.VerifCryptoStateMagic)
+	_ = binary.Write(&b, binary.BigEndian, uint16(stream.VerifCryptoStateVersion))
+	b.WriteByte(1<<0 | 1<<1 | 1<<2 | 1<<3 | 1<<4 | 1<<5)
+	b.Write(sessionKey)
+	b.Write(bytes.Repeat([]byte{0x01}, 16))
+	b.Write(bytes.Repeat([]byte{0x02}, 16))
+	_ = binary.Write(&b, binary.BigEndian, ectr)
+	_ = binary.Write(&b, binary.BigEndian, dctr)
+	for _, f := range [][]byte{make([]byte, 32), make([]byte, 32), nil} {
+		_ = binary.Write(&b, binary.BigEndian, uint16(len(f)))
+		b.Write(f)
+	}
+	return b.Bytes()
+}
+
+// runSeq executes the sequence on the real code and applies the oracle to every ad
+func runSeq(q seqScenario) (key, msg string, stats map[string]int) {
+	stats = map[string]int{}
+	conn := &memConn{}
+	var s *stream.Stream
+	hasKey, enc := false, false
+	switch q.Init {
+	case "blob":
+		var err error
+		s, err = stream.NewStreamWithCryptoState(conn, cryptoBlob(q.Ectr, 5))
+		if err != nil {
+			return "blob-rejected", fmt.Sprintf("NewStreamWithCryptoState: %v", err), stats
+		}
+		s.SetCryptoMode(false)
+		hasKey, enc = true, false
+	case "keyed-enc":
+		s, _ = newStream(conn, true, true)
+		hasKey, enc = true, true
+	case "keyed-clear":
+		s, _ = newStream(conn, true, false)
+		hasKey, enc = true, false
+	default:
+		s, _ = newStream(conn, false, false)
+	}
+	rs := &recStream{s: s, conn: conn}
+	m := message.NewMessageForStream(rs)
+	// the peer mirrors the state changes (not for blob streams: secrecy only)
+	type sent struct {
+		sc  scenario
+		ok  bool
+		end int
+	}
+	var sents []sent
+	for _, st := range q.Steps {
+		switch st.Pre {
+		case "setkey":
+			if err := s.SetSymmetricKey(sessionKey); err != nil {
+				return "setkey", err.Error(), stats
+			}
+			hasKey, enc = true, true
+		case "crypto-on":
+			if s.SetCryptoMode(true) {
+				enc = true
+			}
+		case "crypto-off":
+			s.SetCryptoMode(false)
+			enc = false
+		case "newmsg":
+			m = message.NewMessageForStream(rs)
+		}
+		ad, err := buildAd(st.Attrs)
+		if err != nil {
+			return "gen", err.Error(), stats
+		}
+		before := conn.wr.Len()
+		f0 := len(rs.frames)
+		sc := scenario{Key: hasKey, Enc: enc, Opts: st.Opts, Attrs: st.Attrs}
+		var perr error
+		func() {
+			defer func() {
+				if r := recover(); r != nil {
+					perr = fmt.Errorf("panic: %v", r)
+				}
+			}()
+			perr = m.PutClassAdWithOptions(ctx, ad, sc.config())
+			if perr == nil {
+				perr = m.FinishMessage(ctx)
+			}
+		}()
+		res := &runResult{Frames: rs.frames[f0:], Wire: append([]byte(nil), conn.wr.Bytes()[before:]...), SendErr: perr}
+		if perr != nil {
+			stats["seq-send-refused"]++
+		} else {
+			stats["seq-ad-sent"]++
+		}
+		if hasKey && !enc {
+			stats["seq-ad-keyed-not-encrypting"]++
+		}
+		if k, mm := secrecy(sc, res); k != "" {
+			return k, fmt.Sprintf("ad %d of a sequence (stream key=%v enc=%v at that point, options=%d, send error: %v): %s", len(sents), hasKey, enc, st.Opts, perr, mm), stats
+		}
+		sents = append(sents, sent{sc, perr == nil, conn.wr.Len()})
+		if perr != nil {
+			break // the message is in an undefined state after a refused send
+		}
+	}
+	if q.Init == "blob" {
+		return "", "", stats
+	}
+	// peer: one receiving stream over everything that was written, same state changes
+	pc := &memConn{rd: bytes.NewReader(conn.wr.Bytes())}
+	var ps *stream.Stream
+	switch q.Init {
+	case "keyed-enc":
+		ps, _ = newStream(pc, true, true)
+	case "keyed-clear":
+		ps, _ = newStream(pc, true, false)
+	default:
+		ps, _ = newStream(pc, false, false)
+	}
+	for i, st := range q.Steps {
+		if i >= len(sents) || !sents[i].ok {
+			break
+		}
+		switch st.Pre {
+		case "setkey":
+			_ = ps.SetSymmetricKey(sessionKey)
+		case "crypto-on":
+			ps.SetCryptoMode(true)
+		case "crypto-off":
+			ps.SetCryptoMode(false)
+		}
+		var got *classad.ClassAd
+		var gerr error
+		func() {
+			defer func() {
+				if r := recover(); r != nil {
+					gerr = fmt.Errorf("panic: %v", r)
+				}
+			}()
+			got, gerr = message.NewMessageFromStream(ps).GetClassAd(ctx)
+		}()
+		sc := sents[i].sc
+		if sc.Opts&1 != 0 {
+			break
+		}
+		if gerr != nil {
+			return "seq-peer-error", fmt.Sprintf("ad %d of a sequence: peer GetClassAd failed: %v", i, gerr), stats
+		}
+		src, _ := buildAd(sc.Attrs)
+		for _, a := range sc.Attrs {
+			_, ok := got.Lookup(a.Name)
+			if mustWithhold(sc, a.Name) && ok {
+				return "withheld-received", fmt.Sprintf("ad %d of a sequence: peer received withheld %q", i, a.Name), stats
+			}
+			if mustDeliver(sc, a.Name) && !ok {
+				return "not-delivered", fmt.Sprintf("ad %d of a sequence: attribute %q not reconstructed", i, a.Name), stats
+			}
+			if ok && mustDeliver(sc, a.Name) && a.Kind != "expr" && !strings.EqualFold(a.Name, "MyType") && !strings.EqualFold(a.Name, "TargetType") {
+				if w, g := src.EvaluateAttr(a.Name), got.EvaluateAttr(a.Name); w.Type() != g.Type() || w.String() != g.String() {
+					return "value-changed", fmt.Sprintf("ad %d of a sequence: %q reconstructed as %s, sent %s", i, a.Name, g.String(), w.String()), stats
+				}
+			}
+		}
+	}
+	return "", "", stats
 }
 
 // ---------------------------------------------------------------------------
@@ -886,6 +1082,60 @@ func gen(c *core.Ctx) error {
 			g.flush(c)
 		}
 	}
+	// 4. sequences through one Message, and streams rebuilt from exported crypto state
+	secretAd := func(i int) []attrSpec {
+		return []attrSpec{{"Name", "str", fmt.Sprintf("slot%d@host", i)}, {[]string{"ClaimId", "_condor_privK", "transferkey", "Capability"}[i%4], "str", fmt.Sprintf("kanarie-seq-%04d-%08x", i, c.Rng.Uint32())},
+			{"Cpus", "int", fmt.Sprint(1 + i)}, {"MyType", "str", "Machine"}}
+	}
+	publicAd := func(i int) []attrSpec {
+		return []attrSpec{{"Name", "str", fmt.Sprintf("pub%d", i)}, {"Memory", "int", fmt.Sprint(1024 * (i + 1))}}
+	}
+	var seqs []seqScenario
+	for _, ctr := range []uint32{0, 1, 7, 0x7fffffff, 0xfffffffd, 0xfffffffe, 0xffffffff} {
+		for _, opts := range []int{32, 0, 34, 36} {
+			seqs = append(seqs, seqScenario{Kind: "seq", Init: "blob", Ectr: ctr, Steps: []seqStep{{"", opts, secretAd(int(ctr % 97))}}})
+		}
+		seqs = append(seqs, seqScenario{Kind: "seq", Init: "blob", Ectr: ctr, Steps: []seqStep{{"", 32, secretAd(1)}, {"", 32, secretAd(2)}, {"", 32, secretAd(3)}}})
+	}
+	pres := []string{"", "setkey", "crypto-on", "crypto-off", "newmsg"}
+	for _, init := range []string{"plain", "keyed-enc", "keyed-clear"} {
+		// the shapes named by the property: settle the state after the first ad
+		seqs = append(seqs,
+			seqScenario{Kind: "seq", Init: init, Steps: []seqStep{{"", 32, secretAd(10)}, {"crypto-off", 32, secretAd(11)}, {"crypto-on", 32, secretAd(12)}, {"crypto-off", 0, secretAd(13)}}},
+			seqScenario{Kind: "seq", Init: init, Steps: []seqStep{{"", 0, publicAd(1)}, {"setkey", 32, secretAd(14)}, {"crypto-off", 32, secretAd(15)}, {"crypto-off", 32, secretAd(16)}}},
+			seqScenario{Kind: "seq", Init: init, Steps: []seqStep{{"", 32, publicAd(2)}, {"crypto-off", 32, secretAd(17)}}},
+			seqScenario{Kind: "seq", Init: init, Steps: []seqStep{{"crypto-off", 32, secretAd(18)}, {"crypto-on", 32, secretAd(19)}, {"newmsg", 32, secretAd(20)}, {"crypto-off", 32, secretAd(21)}}})
+		nr := 12
+		if !c.Quick() {
+			nr = 120
+		}
+		for k := 0; k < nr; k++ {
+			var steps []seqStep
+			for j := 0; j < 2+c.Rng.Intn(4); j++ {
+				as := secretAd(100 + k*7 + j)
+				if c.Rng.Intn(4) == 0 {
+					as = publicAd(k + j)
+				}
+				steps = append(steps, seqStep{pres[c.Rng.Intn(len(pres))], []int{32, 32, 0, 34, 36}[c.Rng.Intn(5)], as})
+			}
+			seqs = append(seqs, seqScenario{Kind: "seq", Init: init, Steps: steps})
+		}
+	}
+	for _, q := range seqs {
+		c.OracleCheck()
+		k, mm, st := runSeq(q)
+		for n, v := range st {
+			c.CountN(n, v)
+		}
+		if k != "" {
+			c.OracleFail(k, mm, q)
+		} else {
+			js, _ := json.Marshal(q)
+			c.Nontrivial(string(js))
+		}
+		c.Evaluated(1)
+		c.Count("seq-" + q.Init)
+	}
 	c.Sample(map[string]interface{}{"serialiser_scenarios": nsc, "catalogue_names": len(cat)})
 	c.Exhaustive(false)
 	return nil
@@ -1017,6 +1267,19 @@ func (g *group) add(c *core.Ctx, sc scenario, wi, ei int) error {
 }
 
 func replay(raw json.RawMessage) error {
+	var probe struct {
+		Kind string `json:"kind"`
+	}
+	if json.Unmarshal(raw, &probe) == nil && probe.Kind == "seq" {
+		var q seqScenario
+		if err := json.Unmarshal(raw, &q); err != nil {
+			return err
+		}
+		if k, mm, _ := runSeq(q); k != "" {
+			return fmt.Errorf("%s: %s", k, mm)
+		}
+		return nil
+	}
 	var sc scenario
 	if err := json.Unmarshal(raw, &sc); err != nil {
 		return err
